@@ -48,8 +48,8 @@ RULE = ('Hypothesis-generated (flat_space x algorithm x constructor options x '
         '(designer objects, algorithm names through clients.Study.suggest on a '
         'RAM servicer, default/centre seeding incl. conditional spaces). The '
         'gp family is a seeded sample of 10 (quick) / 66 (thorough) such cases '
-        '(3:2 designer level with reduced optimiser budgets : service level '
-        'with stock settings). '
+        'stratified over the GP entry points (3:2 designer level with mostly '
+        'reduced optimiser budgets : service names with stock settings). '
         'non-trivial = at least one suggestion was answered and judged AND the '
         'space has >=2 parameter kinds or a LOG/REVERSE_LOG scale or a '
         'degenerate domain (or is conditional, defaults family) AND, for '
@@ -259,12 +259,12 @@ def _rounds(draw, spec, n_metrics, algo, max_rounds, max_count, allow_none,
 
 
 @st.composite
-def _session(draw, algos, entry, seeding=False):
+def _session(draw, algos, entry, seeding=False, always_supported=False):
   algo = draw(st.sampled_from(list(algos)))
   fam = SERVICE_ALGOS.get(algo, algo)
   # random_sample.sample_parameters is a helper without a refusal contract:
   # only the flat spaces its callers use are generated for it.
-  want_supported = fam == 'random_sample' or draw(
+  want_supported = always_supported or fam == 'random_sample' or draw(
       st.integers(0, 15 if fam in GP else 7)) != 0
   # NSGA2 is documented to raise on trials without metrics (infeasible), so
   # those are kept rare for it: the session ends at the first refusal.
@@ -315,14 +315,21 @@ def gp_seeding_strategy():
   return _session(GP + ('gp_ucb_pe',), 'designer', seeding=True)
 
 
-def gp_strategy():
-  # designer level with reduced optimiser budgets : service level with the
-  # stock settings = 3 : 2
-  d, v = _session(GP, 'designer'), _session(SERVICE_GP, 'service')
-  return st.one_of(d, d, d, v, v)
-
-
-GP_CASES = {'quick': 10, 'thorough': 66}
+# The gp family is stratified by algorithm (designer level with reduced or
+# stock optimiser budgets : service level with stock settings = 3 : 2), so
+# that every GP entry point is present in every sample.
+GP_PLAN = {
+    'quick': (('gp_bandit', 'designer', 3), ('gp_ucb_pe', 'designer', 3),
+              ('DEFAULT', 'service', 1), ('GAUSSIAN_PROCESS_BANDIT', 'service',
+                                          1),
+              ('GP_UCB_PE', 'service', 1), ('ALGORITHM_UNSPECIFIED', 'service',
+                                            1)),
+    'thorough': (('gp_bandit', 'designer', 20), ('gp_ucb_pe', 'designer', 20),
+                 ('DEFAULT', 'service', 7), ('GAUSSIAN_PROCESS_BANDIT',
+                                             'service', 7),
+                 ('GP_UCB_PE', 'service', 6), ('ALGORITHM_UNSPECIFIED',
+                                               'service', 6)),
+}
 
 
 def _sample_cases(strategy, n, seed):
@@ -349,8 +356,17 @@ def _sample_cases(strategy, n, seed):
 
 def gp_cases(tier):
   import os
-  seed = core.derive_seed(os.environ.get('VERIF_SEED', '1'), ID, 'gp', tier)
-  return _sample_cases(gp_strategy(), GP_CASES[tier], seed)
+  cases = []
+  for algo, entry, n in GP_PLAN[tier]:
+    seed = core.derive_seed(os.environ.get('VERIF_SEED', '1'), ID, 'gp', tier,
+                            algo)
+    cases.append(_sample_cases(
+        _session((algo,), entry, always_supported=True), n, seed))
+  # interleave, so that a worker's slice (every k-th case) mixes algorithms
+  out = []
+  for i in range(max(len(c) for c in cases)):
+    out += [c[i] for c in cases if i < len(c)]
+  return out
 
 
 @st.composite
@@ -595,6 +611,8 @@ def check_designer_session(case):
   def refused(stage, e):
     if supported:
       out.cls('error_in_supported:%s:%s:%s' % (algo, stage, type(e).__name__))
+      if algo in GP:  # few, expensive cases: keep the site in the evidence
+        out.cls('error_site:%s:%s' % (algo, _exc_site(e)))
       out.notes['error'] = '%s %r at %s' % (stage, e, _exc_site(e))
     else:
       out.cls('refused_unsupported')
